@@ -130,7 +130,7 @@ Fixpoint parse_stanzas (fuel : nat) (ls : list bytes) (acc : list stanza)
 Definition parse_lines (ls : list bytes) : res (header * list bytes) :=
   match ls with
   | l0 :: rest =>
-      if bytes_eqb l0 intro_line then parse_stanzas (length rest) rest [] else Err EHeader
+      if bytes_eqb l0 intro_line then parse_stanzas (S (length rest)) rest [] else Err EHeader
   | [] => Err EHeader
   end.
 
